@@ -139,6 +139,11 @@ def law_family():
     for op in ('&', '|', '+'):
         s8, s32 = Op('<<', x, Op('+', C(0xF9, 8), C(0x0B, 8))), Op('<<', x, Op('+', C(0xF9), C(0x0B)))
         fam += [Op(op, s8, s32), Op(op, s32, s8), Op(op, Cond(Op('+', C(0xFF, 8), C(1, 8)), x, y), Cond(Op('+', C(0xFF), C(1)), x, y)), Op(op, x, x), Op(op, x, y, x)]
+    # leaves that a truth test could take for "absent": a segment selector that is the constant 0 (the null selector), a zero displacement, a zero condition, an empty-looking slice
+    z16 = C(0, 16)
+    fam += [Mem(x, 32, z16), Mem(x, 8, z16), Mem(Op('+', x, y), 32, z16), Op('+', Mem(x, 32, z16), y), Sl(Mem(x, 32, z16), 0, 8), Cond(f, Mem(x, 32, z16), y), Comp((Mem(x, 8, z16), 0, 8), (c, 8, 16)),
+            Aff(Mem(x, 32, z16), y), Aff(y, Mem(x, 32, z16)), Mem(Mem(x, 32, z16)), Mem(x, 32, SC(0, 16)), Mem(C(0)), Mem(C(0), 32, z16), Cond(C(0), x, y), Cond(x, C(0), y), Op('+', C(0), x),
+            Comp((C(0, 8), 0, 8), (b, 8, 16)), Aff(x, C(0))]
     # no assignments to slices here (ExprAff rewrites them in its constructor: C11 decides that)
     out, seen = [], set()
     for e in fam:
